@@ -13,6 +13,9 @@ import Anko.Model.Builtins
 import Anko.Gen.Packages
 import Anko.Gen.CoreFlow
 import Anko.Props.CoreFlowTable
+import Anko.Props.Tie.CoreFlow
+import Anko.Props.Tie.ToXFlow
+import Anko.Props.Tie.ContFlow
 
 namespace Anko.C19
 open Anko
@@ -226,6 +229,17 @@ Every leaf statement of core.Import (keys, range, typeOf, kindOf, defined, load,
 toFloat, toBool, toChar, toRune and the slice forms), the bodies of the registered function literals included, is the one written down in
 Props/CoreFlowTable next to Model/Builtins. Any edit of these functions - also a harmless one - breaks this obligation by name; the check then
 searches model and implementation for a failing input (DESIGN.md 13.3). -/
-theorem builtins_are_the_modelled_ones : Gen.CoreFlow.leaves = Tables.coreFlow := by decide +kernel
+theorem builtins_are_the_modelled_ones : Gen.CoreFlow.leaves = Tables.coreFlow := Tie.coreFlow
+
+/-! ### Shared source ties
+
+The code this property is anchored in is also written down, leaf statement by leaf statement, by the tables below (each decided once in
+Props/Tie, `decide +kernel`, against the table regenerated from /repo on this run). A change of that code breaks the tie by name here too, and the check of
+this property then searches for a failing input - so a change that breaks this property through code whose primary table belongs to another
+property is not overlooked. -/
+/-- the conversions of the numeric tower (vmToX.go) and kind helpers -/
+theorem source_tie_ToXFlow : Gen.ToXFlow.leaves = Tables.toXFlow := Tie.toXFlow
+/-- the container paths (index, slice, len, member, make, assignment targets, delete) -/
+theorem source_tie_ContFlow : Gen.ContFlow.leaves = Tables.contFlow := Tie.contFlow
 
 end Anko.C19
